@@ -43,6 +43,7 @@ AsmContext::AsmContext() :
   error_count            { 0 },
   ifdef_count            { 0 },
   parsing_ifdef          { 0 },
+  include_depth          { 0 },
   linker                 { nullptr },
   def_param_stack_count  { 0 },
   cpu_list_index         { 0 },
@@ -97,6 +98,7 @@ void AsmContext::init()
   data_count        = 0;
   ifdef_count       = 0;
   parsing_ifdef     = 0;
+  include_depth     = 0;
   bytes_per_address = 1;
   in_repeat         = 0;
 
